@@ -105,8 +105,7 @@ def line_layout(parts, subw):
             if x[0] == "fv":
                 sp = M.parse_spec(x[1]) if x[1] is not None else None
                 widths.append(sp.width if sp else None)
-                if head is None and len(widths) == 1:
-                    pass
+                ok = ok and sp is not None and sp.width is not None
             else:
                 widths.append(subw)
         else:
@@ -136,10 +135,19 @@ def _lazy_state(E, fn):
     for n in walk_no_nested(fn):
         if isinstance(n, ast.Assign) and len(n.targets) == 1 and isinstance(n.targets[0], ast.Name):
             defs.setdefault(n.targets[0].id, []).append(n.value)
+        elif isinstance(n, ast.Assign) and len(n.targets) == 1 and isinstance(n.targets[0], ast.Tuple) and isinstance(n.value, ast.Tuple) \
+                and len(n.targets[0].elts) == len(n.value.elts) and all(isinstance(t, ast.Name) for t in n.targets[0].elts):
+            for t, v in zip(n.targets[0].elts, n.value.elts):       # a, b = x, y
+                defs.setdefault(t.id, []).append(v)
         elif isinstance(n, ast.Name) and isinstance(n.ctx, ast.Store):
             p_ = parent(n)
-            if not (isinstance(p_, ast.Assign) and len(p_.targets) == 1 and p_.targets[0] is n):
-                defs.setdefault(n.id, []).extend([None, None])
+            pp = parent(p_) if p_ is not None else None
+            if isinstance(p_, ast.Assign) and len(p_.targets) == 1 and p_.targets[0] is n:
+                continue
+            if isinstance(p_, ast.Tuple) and isinstance(pp, ast.Assign) and len(pp.targets) == 1 and pp.targets[0] is p_ and isinstance(pp.value, ast.Tuple) \
+                    and len(p_.elts) == len(pp.value.elts) and all(isinstance(t, ast.Name) for t in p_.elts):
+                continue
+            defs.setdefault(n.id, []).extend([None, None])
     st = M.State(E.env0)
     busy = set()
 
@@ -230,6 +238,15 @@ def _float_specs(v, out, node):
             _float_specs(x[1], out, node)
 
 
+def _value_role(v):
+    """`x.real` / `x.imag` of whatever x is -> term.real / term.imag (so a temporary holding the part keeps the role)"""
+    parts = []
+    while isinstance(v, tuple) and v[:1] == ("attr",):
+        parts.append(v[2])
+        v = v[1]
+    return "term." + ".".join(reversed(parts)) if parts else None
+
+
 def _effective_default(E, fn, pname):
     """value a parameter has when the caller does not pass it: the signature default, or `if p is None: p = ...` at the top of the body"""
     a = fn.args
@@ -277,7 +294,6 @@ def _width_obligations(ctx, once):
     n = 0
     modconsts = {st.targets[0].id for st in m.tree.body if isinstance(st, ast.Assign) and len(st.targets) == 1 and isinstance(st.targets[0], ast.Name)}
     for q, fn in sorted(m.funcs.items()):
-        last = q.split(".")[-1]
         if not (q.startswith("wt") or q.startswith("_wt")):
             continue
         bodies = [fn] + (_reached_helpers(m, fn, set()) if "." not in q else [])
@@ -327,6 +343,7 @@ def _width_obligations(ctx, once):
                     W = sp.width or 0
                     mw = M.float_max_width(sp)
                     ok = mw is not None and mw <= W
+                    role = _value_role(val) or role
                     what = sp.canon() + (f" of {role}" if role and role.startswith("term") else "")
                     shown = ("{" + (show(val) if val is not None else "") + ":" + sp.text + "}")
                     once.check(ok, f"{q}: spec `{shown}` fits its {W}-character field for every finite value", node,
